@@ -76,6 +76,7 @@ PROGRAMS = ['Thiele.thiele ring eligibility (monocyclic templates)', 'MoleculeCo
 ENUM_CAP = 48
 KNOWN_TAUTOMER_SIG = 'C05/thiele-numbering-dependent/tautomer-fix-acceptor-choice'
 KNOWN_SSSR_SIG = 'C05/thiele-numbering-dependent/sssr-choice-in-cages'
+KNOWN_FORM_SIG = 'C05/thiele-depends-on-kekule-form/tautomer-fix'
 KNOWN_FALSE_SIG = 'C05/thiele-false-but-changed/tautomer-fix-without-aromatisation'
 
 _state = {}
@@ -820,7 +821,7 @@ def mol_cases(tag, mol, batch, rel, rng, renum=True, dist=None, known=None):
             # (only when every hydrogen count is given: with `n` atoms of unspecified H the enumeration ranges over
             #  tautomers / protonation states, which are different molecules)
             if not unsaturated_four_ring(src) and all_h_defined(src):
-                forms_of(tag + ':enum', src, fints, sssr_ints(fixed), batch, rel, d)
+                forms_of(tag + ':enum', src, fints, sssr_ints(fixed), batch, rel, d, known=known)
         else:
             return True
     else:
@@ -864,7 +865,7 @@ def mol_cases(tag, mol, batch, rel, rng, renum=True, dist=None, known=None):
     moved = [n for n in k._atoms if k._atoms[n].implicit_hydrogens != t._atoms[n].implicit_hydrogens]
     if moved:
         d('thiele:tautomer-fix-moved-H')
-        ok = (len(moved) == 2 and all(k._atoms[n].atomic_number == 7 for n in moved) and
+        ok = (len(moved) % 2 == 0 and all(k._atoms[n].atomic_number == 7 for n in moved) and
               sum(k._atoms[n].implicit_hydrogens for n in moved) == sum(t._atoms[n].implicit_hydrogens for n in moved) and
               snapshot(k)[0].keys() == snapshot(t)[0].keys() and
               all(snapshot(k)[0][n][:4] == snapshot(t)[0][n][:4] for n in k._atoms))
@@ -888,9 +889,13 @@ def mol_cases(tag, mol, batch, rel, rng, renum=True, dist=None, known=None):
     t3 = k3.copy()
     st, ret = outcome(lambda: t3.thiele())
     if st != 'ok' or not eq_snap(t, t3):
-        rel('thiele-kekule-thiele', f'{tag}: thiele(kekule(t)) != t: {st} {diff_snap(t, t3)}', tints)
+        if st == 'ok' and known is not None and same_without_fix(k, k3):
+            d('known:tautomer-fix-depends-on-kekule-form')
+            known(KNOWN_FORM_SIG, f'{tag}: thiele(kekule(t)) != t: {diff_snap(t, t3)}', kints)
+        else:
+            rel('thiele-kekule-thiele', f'{tag}: thiele(kekule(t)) != t: {st} {diff_snap(t, t3)}', tints)
     if not unsaturated_four_ring(t):
-        forms_of(tag + ':enum-t', t, tints, sssr_ints(t), batch, rel, d, aromatic=t)
+        forms_of(tag + ':enum-t', t, tints, sssr_ints(t), batch, rel, d, aromatic=t, known=known, ref_kek=k, kints=kints)
     else:
         d('gap:unsaturated-four-ring')
     # ---- numbering
@@ -925,8 +930,25 @@ def mol_cases(tag, mol, batch, rel, rng, renum=True, dist=None, known=None):
                     t4 = k4.copy()
                     st, ret = outcome(lambda: t4.thiele())
                     if st != 'ok' or not eq_snap(tr, t4):
-                        rel('thiele-kekule-thiele', f'{tag}: renumbered: {st} {diff_snap(tr, t4)}', wire.mol_to_ints(tr))
+                        if st == 'ok' and known is not None and same_without_fix(kr, k4):
+                            d('known:tautomer-fix-depends-on-kekule-form')
+                            known(KNOWN_FORM_SIG, f'{tag}: renumbered: thiele(kekule(t)) != t: {diff_snap(tr, t4)}',
+                                  wire.mol_to_ints(kr))
+                        else:
+                            rel('thiele-kekule-thiele', f'{tag}: renumbered: {st} {diff_snap(tr, t4)}', wire.mol_to_ints(tr))
     return nontrivial
+
+
+def nofix_form(mol):
+    c = mol.copy()
+    st, _ = outcome(lambda: c.thiele(fix_tautomers=False))
+    return c if st == 'ok' else None
+
+
+def same_without_fix(a_kek, b_kek):
+    """two Kekulé forms of one molecule (same numbering) aromatise to the same form when the tautomer fix is switched off"""
+    x, y = nofix_form(a_kek), nofix_form(b_kek)
+    return x is not None and y is not None and eq_snap(x, y)
 
 
 def sssr_differs(k, kr, mp):
@@ -937,11 +959,11 @@ def sssr_differs(k, kr, mp):
 
 
 def tautomer_fix_only(k, t):
-    """`t` differs from `k` by a moved hydrogen between two nitrogens (and bond orders), and thiele(fix_tautomers=False)
+    """`t` differs from `k` by hydrogens moved between pairs of nitrogens (and bond orders), and thiele(fix_tautomers=False)
     does not show the inconsistency (it changes nothing when it returns False)"""
     (ka, kb), (ta, tb) = snapshot(k), snapshot(t)
     moved = [n for n in ka if ka[n] != ta.get(n)]
-    if len(moved) != 2 or any(ka[n][0] != 7 or ka[n][:4] != ta[n][:4] for n in moved):
+    if not moved or len(moved) % 2 or any(ka[n][0] != 7 or ka[n][:4] != ta[n][:4] for n in moved):
         return False
     if sum(ka[n][4] for n in moved) != sum(ta[n][4] for n in moved) or set(kb) != set(tb):
         return False
@@ -962,7 +984,7 @@ def tautomer_choice_only(k, kr, mp):
     return eq_snap(a, b)
 
 
-def forms_of(tag, mol, fints, sssr, batch, rel, d, aromatic=None):
+def forms_of(tag, mol, fints, sssr, batch, rel, d, aromatic=None, known=None, ref_kek=None, kints=None):
     """every enumerated Kekulé form (capped) is accepted by the checker and aromatises to the same aromatic form"""
     st, forms = outcome(lambda: list(itertools.islice(mol.copy().enumerate_kekule(), ENUM_CAP)))
     if st != 'ok':
@@ -980,8 +1002,15 @@ def forms_of(tag, mol, fints, sssr, batch, rel, d, aromatic=None):
             continue
         if ref is None:
             ref = ft
+            ref_kek = f
         elif not eq_snap(ref, ft):
-            rel('forms-aromatise-differently', f'{tag}: form {i}: {diff_snap(ref, ft)}', fints)
+            if known is not None and ref_kek is not None and same_without_fix(ref_kek, f):
+                d('known:tautomer-fix-depends-on-kekule-form')
+                known(KNOWN_FORM_SIG, f'{tag}: form {i}: {diff_snap(ref, ft)}', kints if kints is not None else wire.mol_to_ints(ref_kek))
+            else:
+                rel('forms-aromatise-differently', f'{tag}: form {i}: {diff_snap(ref, ft)}', fints)
+        if ref_kek is None:
+            ref_kek = f
 
 
 # ------------------------------------------------------------------------------------------------
@@ -1226,9 +1255,10 @@ def property_failures(mol, rng=None, enum=True, perms=1):
                     if s2 != 'ok':
                         add('thiele-crash', s2)
                     elif arom is None:
-                        arom = ft
+                        arom, arom_kek = ft, f
                     elif not eq_snap(arom, ft):
-                        add('forms-aromatise-differently', diff_snap(arom, ft))
+                        add('thiele-depends-on-kekule-form/tautomer-fix' if same_without_fix(arom_kek, f)
+                            else 'forms-aromatise-differently', diff_snap(arom, ft))
     else:
         st, ret = outcome(lambda: k.kekule())
         if st != 'ok' or not eq_snap(src, k):
@@ -1266,7 +1296,8 @@ def property_failures(mol, rng=None, enum=True, perms=1):
     t3 = k3.copy()
     st, _ = outcome(lambda: t3.thiele())
     if st != 'ok' or not eq_snap(t, t3):
-        add('thiele-kekule-thiele', f'{st} {diff_snap(t, t3)}')
+        add('thiele-depends-on-kekule-form/tautomer-fix' if st == 'ok' and same_without_fix(k, k3)
+            else 'thiele-kekule-thiele', f'{st} {diff_snap(t, t3)}')
     if enum and not unsaturated_four_ring(t):
         st, forms = outcome(lambda: list(itertools.islice(t.copy().enumerate_kekule(), ENUM_CAP)))
         if st == 'ok':
@@ -1275,7 +1306,8 @@ def property_failures(mol, rng=None, enum=True, perms=1):
                 ft = f.copy()
                 s2, _ = outcome(lambda: ft.thiele())
                 if s2 != 'ok' or not eq_snap(t, ft):
-                    add('forms-aromatise-differently', f'{s2} {diff_snap(t, ft)}')
+                    add('thiele-depends-on-kekule-form/tautomer-fix' if s2 == 'ok' and same_without_fix(k, f)
+                        else 'forms-aromatise-differently', f'{s2} {diff_snap(t, ft)}')
     for _ in range(perms):
         kr, mp = molgen.renumber(rng, k)
         tr = kr.copy()
@@ -1300,7 +1332,8 @@ def property_failures(mol, rng=None, enum=True, perms=1):
         t4 = k4.copy()
         st, _ = outcome(lambda: t4.thiele())
         if st != 'ok' or not eq_snap(tr, t4):
-            add('thiele-kekule-thiele', f'renumbered {st} {diff_snap(tr, t4)}')
+            add('thiele-depends-on-kekule-form/tautomer-fix' if st == 'ok' and same_without_fix(kr, k4)
+                else 'thiele-kekule-thiele', f'renumbered {st} {diff_snap(tr, t4)}')
         if fl:
             break
     return fails
